@@ -894,9 +894,35 @@ func c9GenJsonObj(r *h.Rng, depth int, sb *strings.Builder) {
 				sb.WriteString(" ")
 			}
 		}
-		sb.WriteString(q(h.Pick(r, c9Keys)))
+		key := h.Pick(r, c9Keys)
+		sb.WriteString(q(key))
 		sb.WriteString(":")
-		c9GenJsonVal(r, depth, sb)
+		switch {
+		case (key == "x" || key == "y") && depth > 0 && r.Chance(60): // the nested paths of the json parameters lead somewhere
+			if key == "y" && r.Chance(50) {
+				sb.WriteString("[")
+				for j, m := 0, r.Range(1, 3); j < m; j++ {
+					if j > 0 {
+						sb.WriteString(",")
+					}
+					c9GenJsonObj(r, 0, sb)
+				}
+				sb.WriteString("]")
+			} else {
+				c9GenJsonObj(r, depth-1, sb)
+			}
+		case key == "b" && depth > 0 && r.Chance(50):
+			sb.WriteString("[")
+			for j, m := 0, r.Range(0, 3); j < m; j++ {
+				if j > 0 {
+					sb.WriteString(",")
+				}
+				c9GenJsonVal(r, 0, sb)
+			}
+			sb.WriteString("]")
+		default:
+			c9GenJsonVal(r, depth, sb)
+		}
 	}
 	sb.WriteString("}")
 }
